@@ -40,6 +40,11 @@ def draw_scenario(ch):
                   potential=scene.draw_potential(ch, kinds=("atoms", "fp"), weights=[2, 1], finite_p=0.0, exit_p=0.0, max_configs=2),
                   builder=ch.pick(["planewave", "probe"], "builder"), energy=ch.pick([100e3, 200e3], "energy"), scan_n=ch.range(1, 3, "scan-n"),
                   max_batch=ch.pick(["auto", 1, 2], "max-batch"))
+        # every multislice task compiles its own numba stencil (seconds each): keep the number of blocks x configurations <= 3
+        if "fp" in sc["potential"] and sc["potential"]["fp"]["num_configs"] > 1:
+            sc["scan_n"] = 1
+        if sc["max_batch"] == 1 and sc["scan_n"] == 3:
+            sc["scan_n"] = 2
         sc["potential"]["gpts"] = [ch.pick([12, 16], "gx"), ch.pick([12, 16, 14], "gy")]
         sc["potential"]["slice_thickness"] = ch.pick([1.0, 2.0], "slice")
     elif fam == "history":
